@@ -1,7 +1,8 @@
 (** C13 — VPK archives return exactly what was last written, across reopen.
     Only statements here; proofs are in Fmt/VpkDirProofs.v, Fmt/VpkNameProofs.v and SM/VpkProofs.v. *)
 From Coq Require Import List NArith Bool Permutation.
-From SV Require Import Fmt.VpkDir Fmt.VpkDirProofs Fmt.VpkName Fmt.VpkNameProofs SM.Vpk SM.VpkProofs.
+From SV Require Import Fmt.VpkDir Fmt.VpkDirProofs Fmt.VpkName Fmt.VpkNameSplit Fmt.VpkNameProofs SM.Vpk SM.VpkProofs.
+From SV Require Import Fmt.VpkArchName Fmt.VpkArchNameProofs SM.VpkRefine Fmt.VpkDirV2.
 Import ListNotations.
 Open Scope N_scope.
 
@@ -73,3 +74,118 @@ Proof. exact name_forms_trailing_dot_refuted. Qed.
     reopened archive reads back every file (computed with the real CRC-32). *)
 Theorem c13_example_history_runs : example_history_ok = true.
 Proof. exact example_history_ok_true. Qed.
+
+(** The same over the split statement of _get_file_parts as read from the source (Gen/VpkPlace_gen.v g_ext_split):
+    whenever it cuts at the last '.', the three forms agree ... *)
+Theorem c13_name_forms_agree_k : forall normpath k, split_kind_ok k = true -> forall s,
+  let '(h, t) := split_path s in
+  let '(n, e) := split_ext t [] in
+  file_parts_k normpath k (NPair h t) = file_parts_k normpath k (NStr s)
+  /\ ((e = [] -> rsplit1 46 n = None) -> file_parts_k normpath k (NTriple h n e) = file_parts_k normpath k (NStr s)).
+Proof. exact name_forms_agree_k. Qed.
+
+(** ... and cutting at the first '.' (str.partition) makes 'a/b.c.d' and ('a', 'b.c', 'd') different files. *)
+Theorem c13_name_forms_first_dot_refuted :
+  let s := [97; 47; 98; 46; 99; 46; 100] in
+  split_kind_ok (SplitFirst 46) = false
+  /\ file_parts_k posix_normpath (SplitFirst 46) (NStr s) = ([99; 46; 100], [97], [98])
+  /\ file_parts_k posix_normpath (SplitFirst 46) (NTriple [97] [98; 46; 99] [100]) = ([100], [97], [98; 46; 99]).
+Proof. exact name_forms_first_dot_refuted. Qed.
+
+(** ---- archive file names (Fmt/VpkArchName.v; the instance is Gen/VpkArchName_gen.v g_ncfg) ---- *)
+
+(** The filename setter: [P ++ '_dir.vpk'] has directory prefix [P], and no other file name has a prefix. *)
+Theorem c13_dir_prefix_exact : forall c, setter_ok c = true ->
+  (forall P, dir_prefix_of c (P ++ n_suffix c) = Some P)
+  /\ (forall f p, dir_prefix_of c f = Some p -> f = p ++ n_suffix c).
+Proof. intros c H. split; [exact (dir_prefix_of_dir c H)|exact (dir_prefix_of_inv c H)]. Qed.
+
+(** For every file name of a directory VPK and every index, FileInfo.write appends to exactly the file that FileInfo.read
+    and FileInfo.verify open, namely get_arch_filename(prefix, index); and get_arch_filename(prefix) is the directory file. *)
+Theorem c13_arch_names_coincide : forall c, ncfg_ok c = true -> forall f p i,
+  dir_prefix_of c f = Some p ->
+  site_name c f (n_writer c) i = Some (arch_filename c p (Some i))
+  /\ Forall (fun r => site_name c f r i = Some (arch_filename c p (Some i))) (n_readers c)
+  /\ arch_filename c p None = f.
+Proof. exact arch_names_coincide. Qed.
+
+(** Distinct indexes are distinct files, and none of them is the directory file (what SM/Vpk.v assumes by keeping the
+    archives in a map from index to contents next to the directory file). *)
+Theorem c13_arch_filename_inj : forall c, numbered_ok c = true -> forall p i j,
+  arch_filename c p (Some i) = arch_filename c p (Some j) -> i = j.
+Proof. exact arch_filename_inj. Qed.
+Theorem c13_arch_filename_not_dir : forall c, numbered_ok c = true -> forall p i,
+  arch_filename c p (Some i) <> arch_filename c p None.
+Proof. exact arch_filename_not_dir. Qed.
+
+(** Deriving the reader's prefix by character stripping (rstrip('_dir')) is refuted: 'world_dir.vpk' writes 'world_000.vpk'
+    and reads 'worl_000.vpk'; the condition [ncfg_ok] rejects that configuration. *)
+Theorem c13_arch_names_rstrip_refuted :
+  let c := ex_ncfg reader_rstrip in
+  let f := [119; 111; 114; 108; 100] ++ s_dir_vpk in
+  ncfg_ok c = false
+  /\ site_name c f (n_writer c) 0 = Some ([119; 111; 114; 108; 100; 95; 48; 48; 48] ++ s_vpk)
+  /\ site_name c f reader_rstrip 0 = Some ([119; 111; 114; 108; 95; 48; 48; 48] ++ s_vpk).
+Proof. exact arch_names_rstrip_refuted. Qed.
+
+(** ---- the whole-history statement (SM/VpkRefine.v: invariant + induction over the operation list) ---- *)
+
+(** [vpk_refines_map].  For every configuration that validates archive indexes and names (the generated one does:
+    instance obligation), every sequence of new_file / add_file / FileInfo.write / del / write_dirfile / reopen('r'|'w'|'a')
+    on a fresh archive, for every placement, dir_limit and size: if no write_dirfile raises struct.error ([run] is not
+    [None]) and the data values of the history, together with the empty string, do not collide under the checksum
+    (FileInfo.write skips a write whose checksum equals the stored one), then every operation returns the result code of the
+    specification map, and afterwards the archive is in the same mode, lists exactly the names of the map, and every file
+    reads back exactly the map's bytes and passes verify(). *)
+Theorem c13_vpk_refines_map : forall crc cf, vcfg_ok cf = true -> forall ops st codes,
+  collision_free crc ops ->
+  run crc cf init ops = Some (st, codes) ->
+  let '(s, scodes) := srun cf sinit ops in
+  codes = scodes /\ md st = smd s /\ Permutation (map fst (tbl st)) (map fst (cur s)) /\
+  forall k, match alookup k (tbl st), alookup k (cur s) with
+            | Some i, Some d => read_info st i = d /\ verify_info crc st i = true
+            | None, None => True
+            | _, _ => False
+            end.
+Proof. exact vpk_refines_map. Qed.
+
+(** The property's observation point: any history that leaves the archive writable, then write_dirfile, then reopening in
+    'r' or 'a' mode: both succeed, and the reopened archive lists exactly the files that should exist, each reading back
+    the bytes last written to it and verifying. *)
+Theorem c13_history_save_reopen : forall crc cf, vcfg_ok cf = true -> forall ops m st codes,
+  m <> MW -> collision_free crc ops ->
+  run crc cf init (ops ++ [OSave; OReopen m]) = Some (st, codes) ->
+  let '(s0, c0) := srun cf sinit ops in
+  writable (smd s0) = true ->
+  codes = c0 ++ [rOk; rOk] /\ md st = m /\ Permutation (map fst (tbl st)) (map fst (cur s0)) /\
+  forall k, match alookup k (tbl st), alookup k (cur s0) with
+            | Some i, Some d => read_info st i = d /\ verify_info crc st i = true
+            | None, None => True
+            | _, _ => False
+            end.
+Proof. exact vpk_history_save_reopen. Qed.
+
+(** The collision premise is decidable on a concrete history ... *)
+Theorem c13_collision_freeb_sound : forall crc ops, collision_freeb crc ops = true -> collision_free crc ops.
+Proof. exact collision_freeb_sound. Qed.
+
+(** ... and the premises are satisfiable: the example history (all four placements, an overwrite, save, reopen) with the
+    real CRC-32. *)
+Theorem c13_refines_premises_satisfiable :
+  vcfg_okb ex_cfg = true /\ collision_freeb crc32 ex_ops = true
+  /\ match run crc32 ex_cfg init ex_ops with Some _ => true | None => false end = true.
+Proof. exact refines_example. Qed.
+
+(** ---- version 2 directory files (read side; write_dirfile refuses them) ---- *)
+
+(** The four extra header fields of version 2 are skipped and the entries preserved: a version-2 file with the tree and
+    trailing bytes that write_dirfile produces decodes to the same entries and footer_data, whatever the fields hold. *)
+Theorem c13_dirtree_roundtrip_v2 : forall c, dcfg_ok c = true -> forall t h1 h2 h3 h4 footer b,
+  h1 < 4294967296 -> h2 < 4294967296 -> h3 < 4294967296 -> h4 < 4294967296 ->
+  wf_tree c t -> enc_file_v2 c t h1 h2 h3 h4 footer = Some b ->
+  dec_file_v c b = Some (2, nmap (flat_tree t), footer).
+Proof. exact dirtree_roundtrip_v2. Qed.
+
+(** The two-version decoder agrees with the version-1 decoder the other theorems are about. *)
+Theorem c13_dec_file_v_extends_v1 : forall c bs es f, dec_file c bs = Some (es, f) -> dec_file_v c bs = Some (1, es, f).
+Proof. exact dec_file_v_v1. Qed.
